@@ -1,8 +1,8 @@
 (* C13 -- Archives written by desync are well-formed casync catar.
    Only statements, [exact], Print Assumptions and Examples live here. *)
 From Coq Require Import List NArith Arith Permutation Sorted.
-From DS Require Import Gen.Constants Base.Bytes Base.LE64 Model.Format Model.Goodbye Model.Sip Model.Tar Model.TarSink
-     Proofs.GoodbyeProofs Proofs.TarProofs Proofs.TarSinkProofs.
+From DS Require Import Gen.Constants Base.Bytes Base.LE64 Base.GoPath Model.Format Model.Goodbye Model.Sip Model.Tar Model.TarSink
+     Model.TarWalk Proofs.GoodbyeProofs Proofs.TarProofs Proofs.TarSinkProofs Proofs.PathChildProofs Proofs.TarWalkProofs.
 Import ListNotations.
 
 (* makeGoodbyeBST, for EVERY number of directory entries and every list of items (duplicated
@@ -180,3 +180,41 @@ Proof.
   exists ex_sink_tree, (lenN (tar_bytes ex_sink_tree) - 30)%N. exact tar_into_swallow_refuted_proof.
 Qed.
 Print Assumptions C13_tar_swallowed_error_refuted.
+
+(* ---------------------------------------------------------------------------------------
+   The tree tar() encodes is the tree that was walked.  Model/Tar.v starts from a tree value;
+   the disk source delivers a flat stream of files (filepath.Walk order) and tar() finds the
+   directory structure again with `path.Dir(f.Path) == dir`.  [tar_sees v w t] (Model/TarWalk.v)
+   is that regrouping for the walk of t started at the path string w -- spelled any way: "tree",
+   "tree/", "./tree", "a//tree", "tree/../tree", absolute -- with File.Path = path.Clean(walk path)
+   (v = PathClean, LocalFS.Next as it is); result: the tree tar() encodes and the files it never
+   looks at.  path.Clean / Join / Dir / Base are the models of Base/GoPath.v. *)
+
+(* What the regrouping rests on: the directory of an entry's path is the cleaned path of the
+   directory it was listed in -- for every spelling w and every name that is a real path element. *)
+Theorem C13_dir_of_child : forall w name, w <> [] -> real_elem name ->
+  dir (join [w; name]) = clean w.
+Proof. exact dir_join_child. Qed.
+Print Assumptions C13_dir_of_child.
+
+(* With the cleaned File.Path tar() sees exactly the walked tree and consumes every file, for every
+   tree whose names are real path elements (in particular every [good] tree) and every non-empty
+   root spelling. *)
+Theorem C13_walk_regrouped : forall t w, names_real t -> w <> [] ->
+  tar_sees PathClean w t = Some (t, []).
+Proof. exact tar_sees_clean_proof. Qed.
+Print Assumptions C13_walk_regrouped.
+
+Theorem C13_good_names_real : forall ord t, good ord t -> names_real t.
+Proof. exact good_names. Qed.
+Print Assumptions C13_good_names_real.
+
+(* What path.Clean in LocalFS.Next is for: with File.Path = the walker's path as is (PathRaw), the
+   root spelled "t/" is closed at its first entry -- tar() encodes an empty directory and leaves the
+   3 other files unread, returning nil -- while the spelling "t" still works. *)
+Theorem C13_unclean_root_refuted : exists t,
+  names_real t /\
+  (exists left, tar_sees PathRaw [116; 47]%N t = Some (NDir ex_meta [] [], left) /\ length left = 3) /\
+  tar_sees PathRaw [116]%N t = Some (t, []).
+Proof. exists ex_walk_tree. exact tar_sees_raw_refuted_proof. Qed.
+Print Assumptions C13_unclean_root_refuted.
